@@ -115,7 +115,9 @@ type Server struct {
 	Hang     bool          // the failing step hangs until the context ends instead of returning an error
 	Gate     chan struct{} // if non-nil, every Recv waits for a token (used to hold a poll open)
 	Streams  int
-	Methods  []string
+	// VaryOrder: every other stream lists the files of an answer in reverse order (a server is free to; the contract is the same)
+	VaryOrder bool
+	Methods   []string
 }
 
 func (s *Server) symbolFile(sym string) (File, bool) {
@@ -203,6 +205,11 @@ func (s *Server) answer(f File, sent map[string]bool, bySymbol bool) [][]byte {
 		}
 	default:
 		s.closure(f, map[string]bool{}, &files)
+	}
+	if s.VaryOrder && s.Streams%2 == 0 {
+		for i, j := 0, len(files)-1; i < j; i, j = i+1, j-1 {
+			files[i], files[j] = files[j], files[i]
+		}
 	}
 	var out [][]byte
 	for _, x := range files {
